@@ -96,6 +96,12 @@ Next == /\ Len(hist) < Depth
            \/ FinalSetup
            \/ RunModel
 
+\* behaviours of writes only (the phase actions are inserted by the harness at every position: by PhaseNeutral they do
+\* not change any expectation)
+NextSet == /\ Len(hist) < Depth
+           /\ \E name \in Names : \E u \in UnitArgs(name) : \E idx \in IdxTerms(name) : \E base \in {5, 20} :
+                  SetVal(name, u, idx, base)
+
 \* --- properties ------------------------------------------------------------------------------------
 \* round trip: what was written is what is read back with the same arguments
 RoundTrip == \A k \in 1..Len(hist) : hist[k].a = "SetVal" => hist[k].readback = hist[k].val
